@@ -25,32 +25,92 @@ def setup():
     e2e.vtool_bin()
 
 
+def implicit_dd_family(ctx, rng, n, cap):
+    """The dyndep file as a *further* output of the statement that makes it (`build scan.stamp | t.dd: scan ...`), loaded in the
+    middle of the build, naming inputs whose producers still have work to do: the served statement may not start before them.
+    Built by hand: the shared generator only makes dyndep files that are the first output of their producer."""
+    import copy
+    from ..simlib import St
+    items = []
+    for k in range(n):
+        nserved = rng.randint(1, 2)
+        srcs = {"cfg.in": "// scanner configuration\n", "gen.in": "// gen\n", "x.c": "// x\n"}
+        stmts = [St("gen", ["gen.h"], ins=["gen.in"]), St("x", ["o/x.o"], ins=["x.c"])]
+        served = []
+        provided = False
+        for i in range(nserved):
+            src = "t%d.src" % i
+            lines = []
+            if rng.random() < 0.8:
+                lines.append("#include gen.h")
+            if rng.random() < 0.5:
+                lines.append("#include o/x.o")
+            if i > 0 and provided and rng.random() < 0.7:
+                lines.append("#include o/t0.mod")
+            if i == 0 and rng.random() < 0.6:
+                lines.append("#provides o/t0.mod")
+                provided = True
+            srcs[src] = "\n".join(lines + ["// served %d" % i]) + "\n"
+            st = St("t%d" % i, ["o/t%d.out" % i], ins=[src], dd=True, dyndep="t.dd")
+            st[rng.choice(("oins", "iins"))] = ["t.dd"]
+            served.append(st)
+        where = rng.choice(("implicit", "implicit", "second", "first"))
+        if where == "implicit":
+            scan = St("scan", ["scan.stamp"], iouts=["t.dd"], ins=[s_["ins"][0] for s_ in served] + ["cfg.in"], kind="scan",
+                      serves=[[s_["outs"][0], s_["ins"][0]] for s_ in served])
+        elif where == "second":
+            scan = St("scan", ["scan.stamp", "t.dd"], ins=[s_["ins"][0] for s_ in served] + ["cfg.in"], kind="scan",
+                      serves=[[s_["outs"][0], s_["ins"][0]] for s_ in served])
+        else:
+            scan = St("scan", ["t.dd"], ins=[s_["ins"][0] for s_ in served] + ["cfg.in"], kind="scan",
+                      serves=[[s_["outs"][0], s_["ins"][0]] for s_ in served])
+        stmts += [scan] + served
+        rng.shuffle(stmts)
+        sc = {"id": "C04-%d-idd-%d" % (ctx.seed, k), "sources": srcs, "stmts": stmts, "pools": {}, "defaults": []}
+        steps, scs = [], []
+        if rng.random() < 0.5:
+            steps.append({"op": "build", "targets": [], "j": 2, "k": 1, "sched": {"mode": "prng", "seed": 1}})
+            scs.append(copy.deepcopy(sc))
+            for p_ in rng.sample(["cfg.in", "gen.in", "x.c"], rng.randint(1, 3)) + (["t0.src"] if rng.random() < 0.3 else []):
+                steps.append({"op": "touch", "path": p_})
+                scs.append(copy.deepcopy(sc))
+            if "cfg.in" not in [s_.get("path") for s_ in steps]:
+                steps.append({"op": "touch", "path": "cfg.in"})
+                scs.append(copy.deepcopy(sc))
+        tg = rng.choice(([], [], [served[-1]["outs"][0]], [s_["outs"][0] for s_ in served]))
+        steps.append({"op": "build", "targets": tg, "j": rng.choice((1, 2, 3, 8)), "k": 1, "sched": {"mode": "all", "cap": cap, "keep_world": True}})
+        scs.append(copy.deepcopy(sc))
+        items.append((simlib.scenario_json(sc, steps), {"scs": scs, "explore_step": len(steps) - 1}))
+    return items
+
+
 def run(ctx):
     quick = ctx.tier == "quick"
     rng = random.Random(ctx.seed * 31337 + 4)
-    items = sched.small_scenarios(ctx, "C04", 2000 if quick else 40000, rng, size=(2, 6), cap=250 if quick else 3000,
+    items = sched.small_scenarios(ctx, "C04", 2000 if quick else 16000, rng, size=(2, 6), cap=250 if quick else 600,
                                   feat=dict(order_only=0.6, deps=0.6, phony=0.2, restat=0.25, chain=0.55))
-    items += sched.small_scenarios(ctx, "C04", 300 if quick else 4000, rng, size=(7, 14), cap=40 if quick else 300, salt=1,
+    items += sched.small_scenarios(ctx, "C04", 300 if quick else 2000, rng, size=(7, 14), cap=40 if quick else 100, salt=1,
                                    feat=dict(order_only=0.6, deps=0.6, phony=0.2, chain=0.7))
     # generated headers that a consumer knows only from its recorded discoveries (no manifest path to their generator),
     # after a first build, with the consumer and the generator out of date at the same time.  (Every output exists when the explored build starts: with a missing consumer output the known C10
     # finding - recorded dependencies are not loaded for it - would show up here as well.)
-    items += sched.small_scenarios(ctx, "C04", 500 if quick else 10000, rng, size=(3, 7), cap=60 if quick else 600, salt=2, with_history=1.0,
+    items += sched.small_scenarios(ctx, "C04", 500 if quick else 4000, rng, size=(3, 7), cap=60 if quick else 150, salt=2, with_history=1.0,
                                    change_kinds=["edit", "edit", "edit_hdr", "touch", "cmd"], build_everything_first=True,
                                    feat=dict(deps=0.9, no_manifest_path=0.6, restat=0.15, chain=0.6, dyndep=0.0, phony=0.1, generator=0.0))
     # commands that fail (with -k 1, 2, 3 and 0): nothing that needs an output of a failed command may start, whichever of its
     # other producers finishes afterwards
-    items += sched.small_scenarios(ctx, "C04", 700 if quick else 12000, rng, size=(3, 7), cap=120 if quick else 1500, salt=3, faults=True,
+    items += sched.small_scenarios(ctx, "C04", 700 if quick else 5000, rng, size=(3, 7), cap=120 if quick else 300, salt=3, faults=True,
                                    feat=dict(order_only=0.5, deps=0.5, phony=0.2, restat=0.2, chain=0.6))
+    items += implicit_dd_family(ctx, rng, 250 if quick else 2500, 80 if quick else 200)
     sched.run_explore(ctx, "C04", items)
     # "its response file holds the declared content" on the real disk: a longer file may already be at that path (kept after a
     # failed command, kept by -d keeprsp, stale), the declared content may be empty
     from .. import e2e
-    seeds = [rng.randint(1, 10 ** 9) for _ in range(45 if quick else 800)]
+    seeds = [rng.randint(1, 10 ** 9) for _ in range(45 if quick else 400)]
     e2e.parallel(lambda sd: e2e.c16_rsp_case(ctx, sd, prop="C04"), seeds)
     ctx.rule = ("graphs of 2..6 statements: all completion orders (cap %d per graph), 7..14 statements: first %d orders of the DFS; "
                 "distinct_nontrivial = distinct (scenario, START/FINISH interleaving) with >= 2 commands" %
-                ((250, 40) if quick else (3000, 300)))
+                ((250, 40) if quick else (600, 100)))
     ctx.exhaustive = False
 
 
